@@ -265,3 +265,43 @@ def run(ctx, F, rule="E-DDDMP"):
             ctx.ob(rule + ".code", rule + ".code:inverse", not bad and n == 128,
                    "binary node code: writer layout and reader extraction disagree: %s" % "; ".join(bad[:3]) if bad else
                    "node_code and the reader's shifts/masks are mutually inverse for all %d combinations" % n)
+
+
+def check_strict_sortedness(ctx, F, rule="E-DDDMP.strict"):
+    """The importer validates id lists (.ids, the support-variable level map) as *strictly* ascending: a duplicate id
+    is malformed input and must be rejected by the header check -- later code takes one name / one level per id
+    (`next().unwrap()`, `assert!`), so a duplicate that slips through is a panic instead of an error.  Every
+    sortedness predicate in dddmp::import is evaluated on two equal neighbours and must answer `false`
+    (`is_sorted()` / `is_sorted_by_key` are non-strict by definition)."""
+    from lib.interp import Interp, Oracle, Unrecognised
+    import tables
+    n = 0
+    for fid, h in sorted(F.hir.items()):
+        if not fid.startswith(IMP):
+            continue
+        for c in H.walk(h["body"]):
+            if c.get("k") != "mcall" or "is_sorted" not in (c.get("m") or ""):
+                continue
+            n += 1
+            m = c["m"].rsplit("::", 1)[-1]
+            strict = False
+            why = "`%s` accepts equal neighbours" % m
+            if m == "is_sorted_by" and c.get("a") and c["a"][0].get("k") == "closure":
+                cl = c["a"][0]
+                try:
+                    it = Interp(F, tables.DDDomain(F, tables.BDD), Oracle())
+                    it.oracle.start()
+                    env = {}
+                    for p in cl["params"]:
+                        if not it.match(p, 7, env):
+                            raise Unrecognised("closure parameter")
+                    strict = it.ev(cl["body"], env) is False
+                    why = "its comparison accepts equal neighbours"
+                except Exception as e:   # noqa: BLE001 -- an unrecognised predicate fails closed below
+                    why = "its comparison could not be evaluated (%s)" % e
+            ctx.ob(rule, "%s:%s:%s" % (rule, F.nice(fid), m), strict,
+                   "%s (%s, line %s): %s" % (F.nice(fid), F.where(fid), c.get("ln"),
+                                              "sortedness check rejects duplicates" if strict else
+                                              "sortedness check of an id list is not strict: %s, so a file with a duplicate id "
+                                              "passes the header validation" % why))
+    return n
